@@ -4,15 +4,21 @@
              (rules ("Cls" act (uid act)…)…))
       act ::= generic | keep | remove | raise | (rewrite prop) | (replace uid)
     → (ok none) | (ok out) | (raise)
+      | (precondition-failed)   -- not wf / counter not fresh / some node's class is not the head of its MRO
+      | (rw-mismatch)           -- model ≠ independent rewrite `Rw` up to identities (excluded by C09.transform_strip)
       out ::= (old uid) | (new k "Cls" orgkey (p ("name" "type" "text")…) (k ("name" coll out…)…)) | (newref k)
       (new objects are numbered by first occurrence, pre-order)
 
   (dispatch (strict b) (names "Cls"…) (mro "Cls"… "object") (cls "Cls"))
     → (ok "Cls") | (ok generic)
+      | (precondition-failed)   -- cls is not the head of mro (hypothesis of C09.dispatch_own)
+      | (own-mismatch)          -- lookup ≠ decision table `ownMethod` (excluded by C09.dispatch_own)
 -/
 import PyOak.Decode
 import PyOak.Model.Visitor
 import PyOak.Spec.Visitor
+import PyOak.Spec.Rewrite
+import PyOak.Spec.Dispatch
 namespace PyOak
 open Sexp
 
@@ -55,6 +61,20 @@ partial def canonOut (ctr : Nat) (n : Node) : StateM (List Nat) Sexp := do
         app "p" (n.hd.props.map fun p => .list [ofStr p.name, ofStr p.ty, ofStr p.txt]),
         app "k" ks])
 
+/-- a tree value without identities (every node printed structurally) -/
+partial def structOut (n : Node) : Sexp :=
+  app "n" [ofStr n.cls, ofNat n.org.key,
+    app "p" (n.hd.props.map fun p => .list [ofStr p.name, ofStr p.ty, ofStr p.txt]),
+    app "k" (n.kids.map fun kd => Sexp.list (ofStr kd.name :: ofBool kd.coll :: kd.nodes.map structOut))]
+
+/-- the outcome of a transformation up to identities: used to compare the model with the independent
+rewrite specification `Rw` (Spec/Rewrite.lean) on every input (`Props/C09Rw.lean` proves they agree) -/
+def structRes : Except Err (Option Node) → Sexp
+  | .error .raised => app "raise" []
+  | .error .fuel => app "fuel" []
+  | .ok none => app "ok" [sym "none"]
+  | .ok (some n) => app "ok" [structOut n]
+
 def handleTransform (args : List Sexp) : Option Sexp := do
   let env := decodeEnv args
   let ts ← field1? args "tree"
@@ -69,7 +89,10 @@ def handleTransform (args : List Sexp) : Option Sexp := do
   let rules ← ((field? args "rules").getD []).mapM (decodeRule tbl)
   let v : Visitor := { strict := strict, rules := rules }
   -- the hypotheses of the theorems of Props/C09 are checked on every input
-  if !(wf root && uidsLt ctr root) then pure (app "precondition-failed" []) else
+  if !(wf root && uidsLt ctr root && ownMroTree root) then pure (app "precondition-failed" []) else
+  -- the independent specification must agree with the model up to identities
+  if (structRes ((transform v root ctr).map (·.1))).render != (structRes (Rw v.action root)).render then
+    pure (app "rw-mismatch" []) else
   match transform v root ctr with
   | .error .raised => pure (app "raise" [])
   | .error .fuel => pure (app "fuel" [])
@@ -84,6 +107,10 @@ def handleDispatch (args : List Sexp) : Option Sexp := do
   let marker (nm : Str) : PropV := { name := nm, ty := [], txt := [], canon := .none, compare := true, init := true }
   let v : Visitor := { strict := strict, rules := names.map fun nm => (nm, { dflt := .rewriteProp (marker nm) }) }
   let h : Head := { uid := 0, cls := cls, mro := mro, org := default, props := [], truthy := true }
+  -- the hypothesis of `C09.dispatch_own`, and its decision table next to the model's lookup
+  if !h.ownMro then pure (app "precondition-failed" []) else
+  if (v.method h).isSome != (ownMethod strict v.getattr cls h.bases).isSome then
+    pure (app "own-mismatch" []) else
   match v.action h with
   | .rewriteProp p => pure (app "ok" [ofStr p.name])
   | _ => pure (app "ok" [sym "generic"])
